@@ -566,9 +566,9 @@ Definition only_mentions (vars : list N) (e : expr) : bool :=
 
 (* OPTIONAL MATCH ... WHERE: a conjunct that mentions a variable bound before the OPTIONAL
    MATCH, or no variable at all, is applied to the incoming rows (or dropped) instead of
-   deciding whether the optional part matched.  And in the WHERE of a MATCH that follows an OPTIONAL MATCH (no WITH in between), a
-   conjunct that mentions none of that MATCH's own new variables, and either mentions a variable
-   the OPTIONAL MATCH introduced or no variable at all, is not applied after the null padding. *)
+   deciding whether the optional part matched.  And the WHERE of a MATCH that follows an
+   OPTIONAL MATCH (no WITH in between) is not reliably applied after the null padding (its
+   conjuncts are distributed over the clauses by the variables they mention). *)
 Fixpoint known_optwhere_from (bound optvars : list N) (seen_opt : bool) (cs : list clause) : bool :=
   match cs with
   | [] => false
@@ -578,10 +578,7 @@ Fixpoint known_optwhere_from (bound optvars : list N) (seen_opt : bool) (cs : li
       || known_optwhere_from (new ++ bound) (new ++ optvars) true rest
   | CMatch false ps w :: rest =>
       let new := filter (fun x => negb (memN x bound)) (flat_map ppat_vars ps) in
-      (seen_opt &&
-       opt_exists (fun e => existsb (fun c => negb (mentions new c)
-                                             && (mentions optvars c || match expr_vars c with [] => true | _ => false end))
-                                    (conjuncts e)) w)
+      (seen_opt && opt_exists (fun _ => true) w)
       || known_optwhere_from (new ++ bound) optvars seen_opt rest
   | CUnwind _ x :: rest => known_optwhere_from (x :: bound) optvars seen_opt rest
   | CWith p _ :: rest => known_optwhere_from (map snd (p_items p)) [] false rest
@@ -616,4 +613,9 @@ Definition Known_C01 (c : case) : bool :=
   | _ => Known_syntactic (c_query c) || (negb (check_with ref_cfg c) && check_with eng_cfg c)
   end.
 
-Definition check_case (c : case) : bool := check_with ref_cfg c || Known_C01 c.
+(* = check_with ref_cfg c || Known_C01 c, arranged so that nothing is evaluated twice *)
+Definition check_case (c : case) : bool :=
+  match c_obs c with
+  | ObsPanic => false
+  | _ => Known_syntactic (c_query c) || check_with ref_cfg c || check_with eng_cfg c
+  end.
